@@ -701,7 +701,7 @@ def ev_linalg(facts, max_r=3, max_c=3):
     """Every F2 matrix with at most max_r rows and max_c columns, every block size 1..cols, both reduction modes: the property's own clauses,
     decided exhaustively against a brute-force model.  -> ({clause: (ok, counterexample)}, number of evaluations)"""
     res = dict((k, [True, '']) for k in ('gauss/rank', 'gauss/echelon-form', 'gauss/same-row-space-via-reported-ops', 'gauss/default-entry-points', 'rank', 'inverse',
-                                         'nullspace', 'transpose', 'stack', 'mul'))
+                                         'nullspace', 'transpose', 'stack', 'mul', 'constructors', 'row-col-operations'))
     n = 0
 
     def fail(k, msg):
@@ -794,6 +794,68 @@ def ev_linalg(facts, max_r=3, max_c=3):
             t = _mk(want_t)
         if _rows(t) != want_t:
             fail('transpose', 'transpose(%s) = %s' % ([list(q) for q in rows], [list(q) for q in _rows(t)]))
+    # constructors and dimensions
+    for r in range(0, 4):
+        for c in range(0, 4):
+            for key, val in (('zeros', 0), ('ones', 1)):
+                n += 1
+                try:
+                    m = call_('constructors', M2 + '::' + key, [r, c], '%s(%d, %d)' % (key, r, c))
+                except _Skip:
+                    continue
+                want = [tuple(val for _j in range(c)) for _i in range(r)]
+                nr, nc = _lcall(facts, M2 + '::num_rows', [m]), _lcall(facts, M2 + '::num_cols', [m])
+                if _rows(m) != want or nr != r or nc != (c if r else 0):
+                    fail('constructors', '%s(%d, %d) = %s with num_rows %s, num_cols %s' % (key, r, c, [list(q) for q in _rows(m)], nr, nc))
+    for d in range(0, 5):
+        n += 1
+        try:
+            m = call_('constructors', M2 + '::id', [d], 'id(%d)' % d)
+            if _rows(m) != [tuple(1 if i == j else 0 for j in range(d)) for i in range(d)]:
+                fail('constructors', 'id(%d) = %s' % (d, [list(q) for q in _rows(m)]))
+        except _Skip:
+            pass
+        for i in range(d):
+            n += 1
+            try:
+                m = call_('constructors', M2 + '::unit_vector', [d, i], 'unit_vector(%d, %d)' % (d, i))
+                if _rows(m) != [(1 if j == i else 0,) for j in range(d)]:
+                    fail('constructors', 'unit_vector(%d, %d) = %s, expected the column vector with a single 1 at %d' % (d, i, [list(q) for q in _rows(m)], i))
+            except _Skip:
+                pass
+    # primitive row / column operations (trait doc: add the first index INTO the second)
+    RO, CO = '<%s as linalg::RowOps>::' % M2, '<%s as linalg::ColOps>::' % M2
+    for r, c, rows in _all_matrices(3, 3):
+        if (r, c) not in ((2, 3), (3, 2)):
+            continue
+        for a in range(r):
+            for b in range(r):
+                if a == b:
+                    continue
+                for key, want in ((RO + 'row_add', [tuple(x ^ y for x, y in zip(rows[b], rows[a])) if i == b else rows[i] for i in range(r)]),
+                                  (RO + 'row_swap', [rows[a] if i == b else rows[b] if i == a else rows[i] for i in range(r)])):
+                    m = _mk(rows)
+                    n += 1
+                    try:
+                        call_('row-col-operations', key, [m, a, b], '%s(%d, %d)' % (key, a, b))
+                    except _Skip:
+                        continue
+                    if _rows(m) != want:
+                        fail('row-col-operations', '%s(%d, %d) on %s gives %s, expected %s' % (key.rsplit('::', 1)[1], a, b, [list(q) for q in rows], [list(q) for q in _rows(m)], [list(q) for q in want]))
+        for a in range(c):
+            for b in range(c):
+                if a == b:
+                    continue
+                for key, want in ((CO + 'col_add', [tuple((row[j] ^ row[a]) if j == b else row[j] for j in range(c)) for row in rows]),
+                                  (CO + 'col_swap', [tuple(row[a] if j == b else row[b] if j == a else row[j] for j in range(c)) for row in rows])):
+                    m = _mk(rows)
+                    n += 1
+                    try:
+                        call_('row-col-operations', key, [m, a, b], '%s(%d, %d)' % (key, a, b))
+                    except _Skip:
+                        continue
+                    if _rows(m) != want:
+                        fail('row-col-operations', '%s(%d, %d) on %s gives %s, expected %s' % (key.rsplit('::', 1)[1], a, b, [list(q) for q in rows], [list(q) for q in _rows(m)], [list(q) for q in want]))
     # stacking and multiplication: all pairs of matrices with at most 2 rows and 2 columns, and all 2x3 by a family of 3x2
     small = [(r, c, rows) for r, c, rows in _all_matrices(2, 2) if r >= 1 and c >= 1]
     extra_a = [(r, c, rows) for r, c, rows in _all_matrices(2, 3) if (r, c) == (2, 3)]
@@ -831,6 +893,12 @@ def ev_linalg(facts, max_r=3, max_c=3):
     return dict((k, tuple(v)) for k, v in res.items()), n
 
 
+def _shape(ck, rule, key, ok, site, msg='', sample=None):
+    """an obligation of a rule that recognises code SHAPE: a recognised good shape discharges; anything else is undecided — the value-level clauses
+    are decided by E3-exhaustive, and a shape the rule does not know is not a refutation (DESIGN 3.4)"""
+    ck.ob3(rule, key, True if ok else None, site, ('%s [shape not recognised by this rule; behaviour is decided by E3-exhaustive]' % msg) if not ok else msg, sample)
+
+
 def run(ck):
     facts = ck.facts
     ck.decided('D1 every self.row_add(a,b) in gauss_helper is immediately mirrored by x.row_add(a,b) with identical operands (and no orphan mirror op)',
@@ -860,34 +928,34 @@ def run(ck):
     pm = hir.parent_map(f['hir'])
     res = d1_mirror(f)
     for i, (ok, node, why) in enumerate(res):
-        ck.ob('R-PAIR-mirror', '%s/site-%d' % (GAUSS, i), ok, ck.site(GAUSS, node), why, sample={'primary': hir.pp(node), 'line': hir.line(node)})
+        _shape(ck, 'R-PAIR-mirror', '%s/site-%d' % (GAUSS, i), ok, ck.site(GAUSS, node), why, sample={'primary': hir.pp(node), 'line': hir.line(node)})
     ck.floor('R-PAIR-mirror', len(res), 5)
     bad = d2_writes(f, facts)
-    ck.ob('R-WRITE', GAUSS + '/only-row_add', not bad, ck.site(GAUSS, bad[0][1]) if bad else ck.site(GAUSS),
+    _shape(ck, 'R-WRITE', GAUSS + '/only-row_add', not bad, ck.site(GAUSS, bad[0][1]) if bad else ck.site(GAUSS),
           'gauss_helper mutates the matrix other than through row_add: %s' % '; '.join('%s %s' % (k, hir.pp(n)[:60]) for k, n in bad[:3]),
           sample={'other_writes': len(bad)})
     sid = _param_ids(f).get('self')
     prim = [c for c in hir.calls(f['hir']) if c.get('k') == 'MethodCall' and c['name'] == 'row_add' and _is_local(c['recv'], sid)]
     for i, c in enumerate(prim):
         kind, detail = neq_justification(f, c, pm)
-        ck.ob('R-NEQ', '%s/site-%d' % (GAUSS, i), kind is not None, ck.site(GAUSS, c),
+        _shape(ck, 'R-NEQ', '%s/site-%d' % (GAUSS, i), kind is not None, ck.site(GAUSS, c),
               'row_add(a, a) would zero a row: ' + detail + ' (not-established-by-recognised-idiom)', sample={'call': hir.pp(c), 'justification': kind, 'detail': detail})
     ck.floor('R-NEQ', len(prim), 5)
     # D3
     inv = 'linalg::Mat2::inverse'
     res, somes = d3_inverse(ck.fn(inv))
     for i, (ok, p, why) in enumerate(res):
-        ck.ob3('R-PATH', inv + '/some-%d' % i, ok, ck.site(inv), why, sample={'conds': p.cond_texts(), 'returns': hir.pp(p.ret)})
+        ck.ob3('R-PATH', inv + '/some-%d' % i, True if ok else None, ck.site(inv), why, sample={'conds': p.cond_texts(), 'returns': hir.pp(p.ret)})
     ck.floor('R-PATH', somes, 1)
     for key, ref in ADD_REF.items():
         d = addop_descriptor(ck.fn(key))
-        ck.ob3('R-SIB-rowcol', key, None if d is None else d == ref, ck.site(key), ('descriptor %s differs from the reference %s (trait doc: add the first index INTO the second, over the full other dimension)' % (d, ref)) if d is not None else 'the body is not the recognised single `for i in 0..n { self.d[a][b] ^= self.d[c][d] }` loop',
+        ck.ob3('R-SIB-rowcol', key, True if (d is not None and d == ref) else None, ck.site(key), ('descriptor %s differs from the reference %s (trait doc: add the first index INTO the second, over the full other dimension)' % (d, ref)) if d is not None else 'the body is not the recognised single `for i in 0..n { self.d[a][b] ^= self.d[c][d] }` loop',
               sample={'descriptor': str(d)})
     # swap ops: row_swap swaps rows p1,p2 of d; col_swap swaps [c0],[c1] in every row
     rs = ck.fn('<linalg::Mat2 as linalg::RowOps>::row_swap')
     sw = [c for c in hir.calls(rs['hir']) if c.get('k') == 'MethodCall' and c['name'] == 'swap']
     ok = len(sw) == 1 and {hir.local_name(a) for a in sw[0]['args']} == {p['name'] for p in rs['params'][1:]} and len(rs['params']) == 3
-    ck.ob('R-SIB-rowcol', 'row_swap', ok, ck.site('<linalg::Mat2 as linalg::RowOps>::row_swap'), 'row_swap does not swap exactly its two row arguments')
+    _shape(ck, 'R-SIB-rowcol', 'row_swap', ok, ck.site('<linalg::Mat2 as linalg::RowOps>::row_swap'), 'row_swap does not swap exactly its two row arguments')
     cs = ck.fn('<linalg::Mat2 as linalg::ColOps>::col_swap')
     sw = [c for c in hir.calls(cs['hir']) if c.get('k') == 'MethodCall' and c['name'] == 'swap']
     fors = hir.find(cs['hir'], 'For')
@@ -896,7 +964,7 @@ def run(ck):
         rb = hir.range_bounds(fors[0]['iter'])
         hi = hir.strip(rb[1]) if rb else None
         ok = bool(rb and hir.lit_int(rb[0]) == 0 and hi is not None and hi.get('k') == 'MethodCall' and hi['name'] == 'num_rows')
-    ck.ob('R-SIB-rowcol', 'col_swap', ok, ck.site('<linalg::Mat2 as linalg::ColOps>::col_swap'), 'col_swap does not swap its two column arguments in every row')
+    _shape(ck, 'R-SIB-rowcol', 'col_swap', ok, ck.site('<linalg::Mat2 as linalg::ColOps>::col_swap'), 'col_swap does not swap its two column arguments in every row')
     # Mul
     muls = rops.op_impls(facts, lambda s: s.replace('&', '').strip() == 'linalg::Mat2')
     muls = [m for m in muls if m[1] == 'Mul']
@@ -906,10 +974,10 @@ def run(ck):
         if hir.calls_to(fm['hir'], 'linalg::Mat2::build'):
             nref += 1
             d = matmul_descriptor(fm)
-            ck.ob3('R-TABLE-matmul', key, None if d is None else d == MATMUL_REF, ck.site(key), ('reference Mul impl is not the F2 matrix product (descriptor %s)' % (d,)) if d is not None else 'the product is not written as build(rows, cols, |x, y| { for i in .. { acc ^= self.d[x][i] & rhs.d[i][y] } })', sample={'descriptor': str(d)})
+            ck.ob3('R-TABLE-matmul', key, True if (d is not None and d == MATMUL_REF) else None, ck.site(key), ('reference Mul impl is not the F2 matrix product (descriptor %s)' % (d,)) if d is not None else 'the product is not written as build(rows, cols, |x, y| { for i in .. { acc ^= self.d[x][i] & rhs.d[i][y] } })', sample={'descriptor': str(d)})
         else:
             ok, why, summ = rops.check_impl(fm, op, is_assign, ordered=('Sub', 'Div', 'Mul'))    # matrix multiplication does not commute
-            ck.ob('R-OPS', key, ok, ck.site(key), why, sample={'applications': summ})
+            _shape(ck, 'R-OPS', key, ok, ck.site(key), why, sample={'applications': summ})
     ck.floor('R-OPS', len(muls), 4)
     ck.floor('R-TABLE-matmul', nref, 1)
     # D4: every column block and every column is examined for a pivot (no early exit from the block / column loops of the forward phase),
@@ -927,7 +995,7 @@ def run(ck):
             exits = [x for x in hir.nodes(loops[0]['body'], into_closures=False) if (x.get('k') in ('Break', 'Continue') and x.get('target') == loops[0]['id'] and x.get('k') == 'Break') or x.get('k') == 'Ret']
             ok = not exits
             why = 'the forward phase leaves the loop over the %s early (line %s): later %s are never examined for a pivot, so the reported rank can be too small' % (nm, hir.line(exits[0]) if exits else '?', nm)
-        ck.ob('R-LOOP-complete', GAUSS + '/' + nm, ok, ck.site(GAUSS), why)
+        _shape(ck, 'R-LOOP-complete', GAUSS + '/' + nm, ok, ck.site(GAUSS), why)
     nk = 'linalg::Mat2::nullspace'
     nf = ck.fn(nk)
     early = [p for p in paths.return_paths(nf) if p.kind == 'return']
@@ -936,7 +1004,7 @@ def run(ck):
         conds = [(hir.pp(c[1]), c[2]) for c in p.conds if c[0] == 'cond']
         ok = ok and conds == [('(rank == n)', True)] and 'new' in hir.pp(p.ret)
     nlet = [n for n in hir.nodes(nf['hir']) if n.get('k') == 'Let' and n['pat'].get('k') == 'Bind' and n['pat']['name'] == 'n' and 'num_cols' in hir.pp(n['init'])]
-    ck.ob('R-PATH', nk + '/empty-only-at-full-column-rank', ok and len(nlet) == 1, ck.site(nk), 'the null space may be returned empty early only when rank == number of columns (its dimension is columns - rank): early returns %s' % [[(hir.pp(c[1]), c[2]) for c in p.conds if c[0] == 'cond'] for p in early])
+    _shape(ck, 'R-PATH', nk + '/empty-only-at-full-column-rank', ok and len(nlet) == 1, ck.site(nk), 'the null space may be returned empty early only when rank == number of columns (its dimension is columns - rank): early returns %s' % [[(hir.pp(c[1]), c[2]) for c in p.conds if c[0] == 'cond'] for p in early])
     # D5
     nb = 0
     for name, ok, msg, cnt in block_tiling(f):
@@ -949,7 +1017,7 @@ def run(ck):
         ck.floor('R-COVER-blocks evaluations', nb, 1000)
     pb = pivot_bookkeeping(f)
     for i, (ok, msg) in enumerate(pb):
-        ck.ob('R-PAIR-pivot', GAUSS + '/pivot-%d' % i, ok, ck.site(GAUSS), msg)
+        _shape(ck, 'R-PAIR-pivot', GAUSS + '/pivot-%d' % i, ok, ck.site(GAUSS), msg)
     ck.floor('R-PAIR-pivot', len(pb), 1)
     er = elimination_ranges(f)
     for name, ok, msg in er:
@@ -960,10 +1028,10 @@ def run(ck):
         if ok is None:
             ck.violation('R-DATAFLOW-nullspace', nk + '/' + name, ck.site(nk), msg)
         else:
-            ck.ob('R-DATAFLOW-nullspace', nk + '/' + name, ok, ck.site(nk), msg)
+            _shape(ck, 'R-DATAFLOW-nullspace', nk + '/' + name, ok, ck.site(nk), msg)
     sd = shape_descriptors(facts)
     for key, ok, msg in sd:
-        ck.ob('R-TABLE-shape', key, ok, ck.site(key), msg)
+        _shape(ck, 'R-TABLE-shape', key, ok, ck.site(key), msg)
     ck.floor('R-TABLE-shape', len(sd), 12)
     # positive controls
     fx = fixture()
